@@ -23,7 +23,7 @@ CHECKS = {
     "C11": ("S", "§5 C11", "can_put/can_get vs. probe reservation in a fork of every state; delay exactness from the ledger; drain probe"),
     "C03": ("F", "§5 C03", "identity ledger of every flow item (one place at a time) + container scan after every kernel event + discard counters"),
     "C08": ("F", "§5 C08", "items in machine <= work_capacity; offer time - pull time == drawn delay; delay drawn once per item"),
-    "C09": ("F", "§5 C09", "blocking nodes never discard; non-blocking nodes decide in the instant the item is finished; can_put answers vs ledger room"),
+    "C09": ("F", "§5 C09", "blocking nodes never discard and never wait on an edge whose free places are only taken by their own stale reservations; non-blocking nodes decide in the instant the item is finished and drop only if no out-edge asked for that item had room; can_put answers vs ledger room"),
     "C10": ("F", "§5 C10", "instant-end predicates: sink leaves nothing available, free worker has requests, finished item on offer, token hygiene"),
     "C15": ("F", "§5 C15", "routing from the ledger vs policy (round robin, constant, callable/generator draws, RANDOM draws, first-available lowest index) and vs recorded selection history"),
     "C16": ("F", "§5 C16", "pallet content by identity vs recipe at every combiner put; splitter emission sequence per pallet"),
@@ -33,7 +33,7 @@ CHECKS = {
     "C20": ("F", "§5 C20", "every run of the full grammar incl. conveyors must finish without exception or zero-time livelock; every invalid configuration must raise"),
     "C12": ("S", "§5 C12", "conveyor edges: capacity, entry order, entry spacing vs kinematic reference, minimum and exact travel time"),
     "C13": ("S", "§5 C13", "kinematic reference (stop / close-up) vs published availability at every instant end; no admission during a non-accumulating stall"),
-    "C14": ("S", "§5 C14", "fleet batch / round-trip clauses from load times and observed availability times"),
+    "C14": ("S", "§5 C14", "fleet batch / round-trip clauses from load times and observed availability times (departure only when full or when a waiting period ends, one full round trip, whole batch together, nobody left behind, loading order, the fleet's own process never dies); plus, with the factory engine, loading order through every fleet of the configuration grammar incl. 30-item runs"),
 }
 NA_REASON = "check not built yet in this session (planned: see DESIGN.md §5); not claimed until it runs silent on the unchanged tree"
 
@@ -52,8 +52,9 @@ def main():
             "engine": "engine-%s" % eng,
             "level_claimed": {"category": "model_checking", "text": (S_TEXT if eng == "S" else F_TEXT) + " Oracle: " + what + ".",
                               "design_ref": ref},
-            "level_note": "Trusted: SimPy 4.1.2 kernel, CPython 3.12; bounds: capacity<=3, live tokens<=3 per side, menus of "
-                          "priorities/delays/filters, time grid; harness seams of DESIGN §2 (no source hooks).",
+            "level_note": "Trusted: SimPy 4.1.2 kernel, CPython 3.12; bounds: capacity<=4, outstanding requests<=4 on one side with 1-2 on the other "
+                          "(<=2-3 on both sides), menus of priorities/delays/filters, time grid; factories: 3-8 items per source, deviation "
+                          "bound 2 (quick) / 3 (thorough), plus 30 / 60-item runs with one deviation; harness seams of DESIGN §2 (no source hooks).",
             "technique": "explicit-state model checking of the implementation (BFS over call/kernel-step histories, canonical "
                          "heap-graph hashing, lock-step reference monitor)" if eng == "S" else
                          "stateless bounded-exhaustive exploration of real factories (deviation-bounded choice enumeration, ledger monitor)",
